@@ -410,8 +410,9 @@ static void st_destroy(void)
 
 static const uint8_t fpmask1 = 1, fpmask2 = 2;
 
-static int st_apply(uint32_t op, int audit)
+static int st_apply(uint32_t op, int audit_arg)
 {
+    volatile int audit = audit_arg;     /* st_apply contains sigsetjmp()s (VRT_ABORTS) */
     const int kind = OP_KIND(op), a = OP_A(op), s = OP_S(op), c1 = OP_C1(op), c2 = OP_C2(op);
     const int szc = OP_SZC(op), fail = OP_FAIL(op);
     const unsigned salt = OP_SALT(op);
@@ -917,7 +918,7 @@ static void run_random(uint64_t idx)
     VRT_COUNT("random.histories");
 }
 
-static uint64_t nrandom(void) { return vrt_thorough ? 60000 : 6000; }
+static uint64_t nrandom(void) { return vrt_thorough ? 40000 : 6000; }
 static uint64_t ncases(void)
 {
     if (vrt_thorough) { scopes = thorough_scopes; nscopes = sizeof(thorough_scopes) / sizeof(scopes[0]); }
